@@ -347,7 +347,34 @@ func c02Run(c *core.Ctx) *core.Result {
 		ho.Filter = rewritingFilter
 		r.Count("histories_with_rewriting_filter", 1)
 	}
-	obs := runHistory(c, r, ho)
+	var obs []roundObs
+	if ur := core.NewRand(core.Mix(c.Seed, "C02-usrmerge", c.Index)); ur.P(1, 25) {
+		// the shape of a usrmerge: a directory with more entries than the
+		// destination walker can be ahead of the writer is replaced by a
+		// symlink to a sibling that holds the same names (with further hard
+		// links): nothing below the sibling changed, nothing is requested
+		n := ur.Range(150, 320)
+		t0 := &tree.Tree{Entries: []tree.Entry{{Path: "a", Type: tree.Dir, Perm: 0755, Mtime: 1e18}, {Path: "b", Type: tree.Dir, Perm: 0755, Mtime: 1e18}}}
+		for i := 0; i < n; i++ {
+			d := []byte(fmt.Sprintf("content %d", i))
+			t0.Entries = append(t0.Entries,
+				tree.Entry{Path: fmt.Sprintf("a/f%03d", i), Type: tree.File, Perm: 0644, Mtime: 1e18 + int64(i), Data: []byte("in a")},
+				tree.Entry{Path: fmt.Sprintf("b/f%03d", i), Type: tree.File, Perm: 0644, Mtime: 1e18 + int64(i), Data: d})
+			if i%2 == 0 {
+				t0.Entries = append(t0.Entries, tree.Entry{Path: fmt.Sprintf("b/g%03d", i), Type: tree.File, Perm: 0644, Mtime: 1e18 + int64(i), Data: d, LinkTo: fmt.Sprintf("b/f%03d", i)})
+			}
+		}
+		t0.Sort()
+		ho = histOpt{Rounds: 1, GenOpt: g, EditOpt: eo}
+		obs = runHistoryFrom(c, r, ho, t0, func(t *tree.Tree) []string {
+			t.Remove("a")
+			t.Put(tree.Entry{Path: "a", Type: tree.Symlink, Perm: 0777, Mtime: 1e18 + 7, Target: "b"})
+			return []string{"replace directory a by a symlink to b"}
+		})
+		r.Count("histories_replacing_a_large_directory_by_a_symlink_to_its_sibling", 1)
+	} else {
+		obs = runHistory(c, r, ho)
+	}
 	if obs == nil {
 		return r
 	}
